@@ -658,7 +658,7 @@ class StmtsMixin:
         if not is_for:
             mod |= assigned_in([ast.Expr(node.test)])
         # ghost variables updated by ghost code anchored in the body
-        for g in self.unit.ghosts:
+        for g in self.ghosts_inside(body):
             mod |= assigned_in(ast.parse(g.code).body)
         if calls_logger(body) or may_call(body):
             mod.add("_warnings")
@@ -763,9 +763,30 @@ class StmtsMixin:
                             names.add(t.id)
                         elif isinstance(t, (ast.Tuple, ast.List)):
                             names.update(e.id for e in t.elts if isinstance(e, ast.Name))
-        for g in self.unit.ghosts:
+        for g in self.ghosts_inside(stmts):
             names |= assigned_in(ast.parse(g.code).body)
         return names
+
+    def ghosts_inside(self, stmts):
+        """Ghost blocks whose anchor statement occurs (syntactically) inside stmts."""
+        out = []
+        for g in self.unit.ghosts:
+            want = g.anchor_norm()
+            hit = False
+            for s in stmts:
+                for n in ast.walk(s):
+                    if isinstance(n, ast.stmt) and not isinstance(n, (ast.For, ast.While, ast.If, ast.Try, ast.With, ast.FunctionDef, ast.ClassDef)):
+                        try:
+                            if ast.unparse(n) == want:
+                                hit = True
+                                break
+                        except Exception:
+                            pass
+                if hit:
+                    break
+            if hit:
+                out.append(g)
+        return out
 
     def items_for(self, node, items: ItemsObj, st, ordn, spec):
         raise OutOfSubset("iteration over dict items")
